@@ -265,3 +265,10 @@ Proof.
     try (rewrite nth_error_app1; [exact Hn|apply nth_error_Some; congruence]).
   exfalso. exact (Hno k vs eq_refl).
 Qed.
+
+(* AscendPrefix carries no state between ranges: the model iterator is a function of the tree alone, so any number of passes
+   (each possibly stopped after n items) over the tree reached by any history list prefixes of the same filtered sorted listing *)
+Theorem zip_history_passes : forall puts p (ns : list nat),
+  map (fun n => firstn n (ascend_prefix p (fold_left zput puts Leaf))) ns =
+  map (fun n => firstn n (filter (fun kv => is_prefix p (fst kv)) (fold_left rput puts []))) ns.
+Proof. intros puts p ns. rewrite zip_history_ascend_prefix. reflexivity. Qed.
